@@ -11,10 +11,11 @@ CLAIM = dict(cat="proof", design="§3 C07, Appendix A.5",
         "two tasks between lock_dependency and unlock_dependency never share a lock, hence never a subgrid (mutual_exclusion); exact accounting of number_of_tasks, never decremented at 0, "
         "0 when all threads left (counter_exact); some thread can always strictly decrease a measure within two of its own steps (progress = deadlock freedom) and every non-idle step decreases it "
         "(bounded_work: termination under weak fairness; starvation by an adversarial scheduler is not claimed); the state after a step equals the initial state of the next (reset_reestablishes_init); "
-        "wf_check is sound. make_graph (literal model of make_hydro_tasks/set_dependencies/reset_hydro_tasks) is well formed for all layouts up to 4x4x4 x 8 periodicities without a periodic axis of one subgrid "
-        "(C07_make_graph_wf_partial, by kernel evaluation). REFUTED for a periodic axis with exactly one subgrid (C07_self_neighbour_refuted / _never_completes, defect D2: the pair task takes the same lock twice). "
+        "wf_check is sound. make_graph true (literal model of make_hydro_tasks/set_dependencies/reset_hydro_tasks of the repaired code) is well formed for ALL layouts up to 4x4x4 x 8 periodicities, including a periodic axis of one subgrid "
+        "(C07_make_graph_wf_partial, by kernel evaluation; C07_self_pair_single_lock: such a self pair task has one lock, that of the only subgrid it touches). The pinned commit (make_graph false) is REFUTED for a periodic axis with exactly one subgrid "
+        "(C07_self_neighbour_refuted / _never_completes, defect D2: the pair task took the same lock twice; fixed, the D2 layouts stay in the corpus as regression cases: the real loop must terminate). "
         "Tie, every run: the real task table (harness includes the real translation unit and calls the real functions on a real DensitySubGridCreator) is diffed with make_graph for every layout <= 3x3x3 (thorough 4x4x4 + random larger) x 8 periodicities, "
-        "wf_check is evaluated on the REAL table, a hydro step is run on the real Task/TaskQueue/ThreadLock/AtomicValue objects with interleaved virtual threads and that run is replayed label by label through the model's step function, "
+        "wf_check is evaluated on the REAL table, a hydro step is run on the real Task/TaskQueue/ThreadLock/AtomicValue objects with interleaved virtual threads that run is replayed label by label through the model's step function, the REAL worker loop (source lines of do_simulation included verbatim) is run on real OpenMP threads, "
         "and an independent oracle checks property C07 on the real run.",
    note="Trusted: Coq kernel; ExtrOcamlBasic extraction + OCaml driver + Python oracle (correspondence only). PARTIAL: make_graph_wf only up to 4x4x4 (larger layouts: wf_check on the dumped real table at run time). "
         "Abstractions, argued not proved: lock_dependency is one atomic step (its transient hold of the first lock only adds failed fetches, which the model allows at any time); the per-thread LIFO queues with stealing are one multiset with arbitrary choice; "
@@ -241,17 +242,18 @@ def run(ck):
     cov = ck.coverage
     hist = dict((k, 0) for k in KINDS)
     nontrivial = set()
-    nself = 0
-    self_witness = None
     runs = 0
     labels = 0
     viol_keys = set()
     suspects = []     # blocks whose table is not as expected -> search for a failing run
 
     def report(b, why, nthreads, seed, kind="task_graph"):
+        if self_neighbour(b["layout"]) and ("never terminates" in why or "does not terminate" in why) and b.get("lockfail"):
+            kind = "self_neighbour_deadlock"
+            why += " [regression of defect D2: a subgrid that is its own neighbour on a periodic axis; the pair task holds the SAME lock twice]"
         clause = next((c for c in ("executed twice", "starts before", "at the same time", "never terminates", "did not terminate", "never executed", "number_of_tasks is")
                        if c in why), "other")
-        if (kind, clause) in viol_keys and kind != "self_neighbour_deadlock":
+        if (kind, clause) in viol_keys:
             return
         viol_keys.add((kind, clause))
         ck.violation("C07 fails on the real task objects, layout %dx%dx%d periodic=(%d,%d,%d), %d thread(s): %s" % (b["layout"] + (nthreads, why)),
@@ -268,28 +270,19 @@ def run(ck):
             nontrivial.add(l)
         if b.get("cover") != 1:
             ck.breaks.append("layout %s: the tasks of the table are not exactly the tasks in the 18 slots of the subgrids (reset/queueing would miss some)" % (l,))
-        sn = self_neighbour(l)
         if m == "S":
             runs += 1
             labels += len(b.get("sched", []))
             why = run_oracle(b)
-            if sn:
-                nself += 1
-                if why and b["result"][0] == "hang" and b.get("lockfail"):
-                    if self_witness is None or l == (1, 2, 2, 1, 0, 0):
-                        self_witness = (b, why, nt, sd)
-                else:
-                    ck.breaks.append("layout %s has a periodic axis with one subgrid but the real run did not hang as the model predicts (%s)" % (l, why))
-            elif why:
+            if why:
                 report(b, why, nt, sd)
-        if not sn and (b.get("lockfail") or table_defects(b)):
-            suspects.append((b, nt, sd))
+        if b.get("lockfail") or table_defects(b):
+            suspects.append((b, nt or 2, sd or 1))
     # --- the REAL worker loop (source lines of do_simulation, included verbatim) on real OpenMP threads
     t_runs = t_events = 0
-    hang_seen = None
     if getattr(ck, "real_loop", False):
         reps = 1 if ck.quick else 4
-        treqs = [("T", l, 2 + ck.rng.below(7), 0) for (m, l, _, _) in reqs if m == "S" and not self_neighbour(l) for _ in range(reps)]
+        treqs = [("T", l, 2 + ck.rng.below(7), 0) for (m, l, _, _) in reqs if m == "S" for _ in range(reps + (1 if self_neighbour(l) else 0))]
         rc_t, tblocks = run_impl(ck, treqs, timeout=240 if ck.quick else 900)
         for (m, l, nt, sd), b in zip(treqs, tblocks):
             if "result" not in b:
@@ -301,17 +294,6 @@ def run(ck):
                 report(b, "[real worker loop on %d real threads] %s" % (nt, why), nt, -1)
         if (rc_t != 0 or len(tblocks) != len(treqs)) and not any(v["replay"].get("seed") == -1 for v in ck.violations):
             ck.breaks.append("real-thread harness exited with %d after %d of %d runs" % (rc_t, len(tblocks), len(treqs)))
-        if self_witness is not None:
-            lw = self_witness[0]["layout"]
-            rc_h, hb = run_impl(ck, [("T", lw, 4, 0)], timeout=30)
-            hang_seen = bool(hb) and hb[0].get("result", [""])[0] == "watchdog"
-            if not hang_seen:
-                ck.breaks.append("the real worker loop terminated on the self-neighbour layout %s although the model predicts a hang" % (lw,))
-    if self_witness is not None:
-        b, why, nt, sd = self_witness
-        nlay = sum(1 for (m, l, _, _) in reqs if self_neighbour(l))
-        report(b, why + " [defect D2: a periodic axis with exactly one subgrid makes the subgrid its own neighbour; the pair task gets the SAME lock twice; %d of the %d layouts of this run are affected%s]"
-               % (nlay, len(reqs), "; the REAL worker loop on 4 real threads was killed by the watchdog after 8 s" if hang_seen else ""), nt, sd, kind="self_neighbour_deadlock")
 
     # --- model side: diff of the table, wf_check on the real table, replay of the real runs, random schedules
     mism = 0
@@ -329,7 +311,7 @@ def run(ck):
                 if mism <= 3:
                     ck.breaks.append("correspondence C07 make_graph <-> real task table, layout %s: line %d: real=%r model=%r"
                                      % (b["layout"], k, b["canon"][k] if k < len(b["canon"]) else None, mb["canon"][k] if k < len(mb["canon"]) else None))
-                if not self_neighbour(b["layout"]) and not any(x[0] is b for x in suspects):
+                if not any(x[0] is b for x in suspects):
                     suspects.append((b, 2, 1))
         nsim = 2 if ck.quick else 6
         feed = []
@@ -351,30 +333,25 @@ def run(ck):
         if len(res) != len(blocks):
             ck.breaks.append("model driver answered %d of %d real tables" % (len(res), len(blocks)))
         for (m, l, nt, sd), b, r in zip(reqs, blocks, res):
-            sn = self_neighbour(l)
             wf = r.get("wf", ["?"])[0]
-            if wf != ("0" if sn else "1"):
-                ck.breaks.append("wf_check on the REAL task table of layout %s is %s (expected %s): %s" % (l, wf, "0" if sn else "1", table_defects(b)[:3]))
-                if not sn and not any(x[0] is b for x in suspects):
+            if wf != "1":
+                ck.breaks.append("wf_check on the REAL task table of layout %s is %s (expected 1): %s" % (l, wf, table_defects(b)[:3]))
+                if not any(x[0] is b for x in suspects):
                     suspects.append((b, nt or 2, sd or 1))
             rp = r.get("replay", ["none"])
             if m == "S":
-                want_tail = ["running"] if sn else ["exited", "0"]
-                if rp[0] != "ok" or rp[2:2 + len(want_tail)] != want_tail:
+                if rp[0] != "ok" or rp[2:4] != ["exited", "0"]:
                     ck.breaks.append("the run of the real task/queue/lock objects for layout %s (%d threads, seed %d) is not a run of the model: %s" % (l, nt, sd, " ".join(rp)))
             sm = r.get("sim", ["0", "0", "0", "0"])
             nsim_total += int(sm[0])
             sim_steps += int(sm[2])
-            if sn:
-                if int(sm[0]) and int(sm[3]) != int(sm[0]):
-                    ck.breaks.append("model schedules on the real table of self-neighbour layout %s: %s of %s hang (expected all)" % (l, sm[3], sm[0]))
-            elif int(sm[1]) or int(sm[3]):
+            if int(sm[1]) or int(sm[3]):
                 ck.breaks.append("model schedule on the REAL table of layout %s violates a monitor: %s" % (l, " ".join(sm[4:]) or "hang"))
                 if not any(x[0] is b for x in suspects):
                     suspects.append((b, nt or 2, sd or 1))
 
     # --- search-on-break: look for a concrete failing run of the real objects on the suspect layouts
-    if suspects and not any(v["key"].get("kind") == "task_graph" for v in ck.violations):
+    if suspects and not ck.violations:
         tried = 0
         for (b, nt, sd) in suspects[:12]:
             pc = real_pair_conflict(ck, b)
@@ -390,7 +367,7 @@ def run(ck):
                 if why:
                     report(b2, why, nt2, sd2)
                     break
-            if any(v["key"].get("kind") == "task_graph" for v in ck.violations):
+            if ck.violations:
                 break
         ck.notes.append("search-on-break: %d suspect layouts, %d extra real runs" % (len(suspects), tried))
 
@@ -403,7 +380,7 @@ def run(ck):
     cov["table_mismatches"] = mism
     cov["task_type_histogram"] = hist
     cov["tasks_compared"] = sum(hist.values())
-    cov["self_neighbour_layouts"] = sum(1 for (_, l, _, _) in reqs if self_neighbour(l))
+    cov["regression_layouts_D2_periodic_axis_with_one_subgrid"] = sum(1 for (_, l, _, _) in reqs if self_neighbour(l))
     cov["real_primitive_runs"] = runs
     cov["real_loop_runs_on_real_threads"] = t_runs
     cov["real_loop_start_stop_events_checked"] = t_events
@@ -445,7 +422,7 @@ def replay(ck, rp):
     rc, blocks = run_impl(ck, [("S", l, max(1, r.get("nthreads", 1)), r.get("seed", 1))])
     b = blocks[0]
     why = run_oracle(b)
-    if not why and not self_neighbour(l):
+    if not why:
         pc = real_pair_conflict(ck, b)
         if pc:
             why = "tasks %s and %s both touch subgrid %d and the real lock_dependency of both succeeds at the same time" % (tname(b, pc[0]), tname(b, pc[1]), pc[2])
